@@ -35,6 +35,7 @@ def src_files(vendor):
     fs = sorted(glob.glob(os.path.join(REPO, "SRC", "*.c")))
     fs = [f for f in fs if os.path.basename(f) != "sp_ienv.c"]     # tuning seam: harness provides sp_ienv
     fs += sorted(glob.glob(os.path.join(REPO, "FORTRAN", "c_fortran_*.c")))
+    fs += sorted(glob.glob(os.path.join(REPO, "EXAMPLE", "?readtriple_noheader.c")))
     if not vendor:
         fs += sorted(glob.glob(os.path.join(REPO, "CBLAS", "*.c")))
     return fs
